@@ -954,3 +954,12 @@ package ro
 //@   ensures [a-tuple-is-emitted-when-every-queue-has-a-value|C05] len(old(valueA)) > 0 && len(old(valueB)) > 0 && len(old(valueC)) > 0 && len(old(valueD)) > 0 && len(old(valueE)) > 0 && len(old(valueF)) > 0 ==> count(destination.NextWithContext) == 1 && arg(destination.NextWithContext, 0) == ctx
 //@   ensures [pops-exactly-the-heads|C05] len(old(valueA)) > 0 && len(old(valueB)) > 0 && len(old(valueC)) > 0 && len(old(valueD)) > 0 && len(old(valueE)) > 0 && len(old(valueF)) > 0 ==> len(valueA) == len(old(valueA)) - 1 && len(valueB) == len(old(valueB)) - 1 && len(valueC) == len(old(valueC)) - 1 && len(valueD) == len(old(valueD)) - 1 && len(valueE) == len(old(valueE)) - 1 && len(valueF) == len(old(valueF)) - 1
 //@   ensures [completes-exactly-when-a-finished-queue-is-drained|C05] len(old(valueA)) > 0 && len(old(valueB)) > 0 && len(old(valueC)) > 0 && len(old(valueD)) > 0 && len(old(valueE)) > 0 && len(old(valueF)) > 0 ==> iff(called(destination.CompleteWithContext), (completedA && len(valueA) == 0) || (completedB && len(valueB) == 0) || (completedC && len(valueC) == 0) || (completedD && len(valueD) == 0) || (completedE && len(valueE) == 0) || (completedF && len(valueF) == 0))
+
+//@ operator ZipAll
+//@   props C05 C04
+//@   note the list of sources is collected first; the zipped sources then decide every notification of the output, including its completion: reading the list to its end completes nothing (unless there is nothing to zip)
+//@   track call.zipAllInnerSubscriptions innerSub.Add
+//@   on next(ctx, flattenSources) when len(flattenSources) == 0 : emits Complete(ctx)
+//@   on next(ctx, flattenSources) when len(flattenSources) > 0 : emits call.zipAllInnerSubscriptions(ctx, flattenSources, destination), innerSub.Add(_)
+//@   on error(ctx, err) : emits Error(ctx, err)
+//@   on complete(ctx) : emits
